@@ -329,8 +329,15 @@ pub fn block_on<F: Future>(future: F) -> F::Output {
             }
             let r = rt();
             let mut moved = false;
+            let never = std::env::var("ZX_HANG_SCRIPT").ok();
             for (i, p) in r.procs.iter_mut().enumerate() {
                 if p.state == PState::Running {
+                    if let Some(pat) = &never {
+                        // this script takes arbitrarily long: it does not finish in this run
+                        if p.script.contains(pat.as_str()) {
+                            continue;
+                        }
+                    }
                     p.state = PState::Exited(0);
                     log(&format!("proc_exit p{} 0 (auto)", i));
                     moved = true;
